@@ -1,5 +1,6 @@
 import IodineModel.Props.C12
 import IodineModel.Props.C13
+import IodineModel.Lemmas.HsSys
 /-
 C06 — the client survives arbitrary replies (memory safety, termination).  PARTIAL.
 
@@ -55,5 +56,159 @@ theorem login_reply_commands_validated (dev reply : List Nat) (sysret : Int) (hd
 join loop) -/
 example : ∃ r, Wire.dnsDecodeAnswer 4 (C12.rx C12.answerMx2 #[] 65536) = Except.ok r :=
   answer_decode_no_fault _ (by decide) 4 (by decide)
+
+/-! ### the handshake (step machine `Client/Handshake.lean`, diffed line by line against the real `client_handshake()`)
+
+"Termination" for the handshake: whatever arrives — any replies, fitting or not, hostile or genuine, any timeouts, in any order — the
+handshake returns; no reply can wedge it or make it start over.  And the only replies whose text reaches the operating system are login
+replies, through the validated path of C13. -/
+
+/-- the handshake machine started by `client_handshake(dns_fd, raw_mode, autodetect_frag_size, fragsize)` in static state `c` and driven by
+the inputs `inps` (what each `select` returned) -/
+def handshakeRun (c : Client.Cli) (args : Client.HsArgs) (pw dev : List Nat) (inps : List Client.CInput) : Client.HState :=
+  inps.foldl (fun s i => (Client.hstep s i).1) (Client.hsStart c args pw dev).1
+
+/-- number of `select` timeouts in an input sequence -/
+def ticks (inps : List Client.CInput) : Nat :=
+  (inps.filter fun i => match i with | .tick => true | _ => false).length
+
+/-- an input that is a datagram on the DNS socket -/
+def IsReply (i : Client.CInput) : Prop := (∃ q, i = .rq q) ∨ (∃ b, i = .rawans b)
+
+/-- **No wedge, step form.**  There is a measure on the states of the handshake machine which is at most 162 when `client_handshake` is
+entered, is 0 exactly when the handshake has returned, and for EVERY state `s` in which the handshake is running and EVERY input:
+either the step lowers the measure strictly, or the input was a datagram that `handshake_waitdns` ignores — and then nothing but the
+receive buffer `in[]` has changed, nothing was sent and the thread waits in the same `select` again.  A timeout always lowers it. -/
+theorem handshake_no_wedge :
+    ∃ μ : Client.HState → Nat,
+      (∀ c args pw dev, μ (Client.hsStart c args pw dev).1 ≤ 162) ∧
+      (∀ s, μ s = 0 ↔ s.pos = none) ∧
+      (∀ s inp, s.pos ≠ none →
+        μ (Client.hstep s inp).1 < μ s ∨
+        (IsReply inp ∧ Client.hstep s inp = ({ s with inb := (Client.hstep s inp).1.inb }, [], Client.hpending s))) ∧
+      (∀ s, s.pos ≠ none → μ (Client.hstep s .tick).1 < μ s) := by
+  refine ⟨fun s => Client.posRank s.pos, ?_, ?_, ?_, ?_⟩
+  · intro c args pw dev
+    exact Client.orank_hsStart c args pw dev
+  · intro s
+    cases h : s.pos <;> simp [h, Client.posRank]
+  · intro s inp hs
+    cases hp : s.pos with
+    | none => exact absurd hp hs
+    | some p =>
+      rcases Client.hstep_progress_or_ignored s inp p hp with h | ⟨h1, h2⟩
+      · left
+        show Client.posRank (Client.hstep s inp).1.pos < Client.posRank s.pos
+        rw [hp]
+        show _ < Client.hsRank p + 1
+        unfold Client.orank at h
+        omega
+      · right
+        refine ⟨?_, ?_⟩
+        · cases inp with
+          | rq q => exact Or.inl ⟨q, rfl⟩
+          | rawans b => exact Or.inr ⟨b, rfl⟩
+          | tun f => simp [Client.isTimeoutInput] at h1
+          | tick => simp [Client.isTimeoutInput] at h1
+        · rw [h2]; simp [Client.hpending, hp]
+  · intro s hs
+    cases hp : s.pos with
+    | none => exact absurd hp hs
+    | some p =>
+      have := Client.hstep_timeout_progress s .tick p hp rfl
+      show Client.posRank (Client.hstep s .tick).1.pos < Client.posRank s.pos
+      rw [hp]
+      show _ < Client.hsRank p + 1
+      unfold Client.orank at this
+      omega
+
+/-- **`handshake_terminates`.**  From the entry of `client_handshake`, for EVERY input sequence — any answers, any timeouts, in any
+order: once 162 `select` timeouts have occurred the handshake has returned (`pos = none`: it returned a value or called `errx`).  So the
+handshake cannot consume more than 162 timeouts, i.e. (every timeout being at most 5 s, plus `sleep(1)` per SERVFAIL) it cannot hang. -/
+theorem handshake_terminates (c : Client.Cli) (args : Client.HsArgs) (pw dev : List Nat) (inps : List Client.CInput)
+    (h : 162 ≤ ticks inps) : (handshakeRun c args pw dev inps).pos = none := by
+  unfold handshakeRun
+  rw [← Client.hsRun_eq_foldl]
+  apply Client.hsRun_terminates
+  have h1 := Client.orank_hsStart c args pw dev
+  have h2 : ∀ l : List Client.CInput, ticks l = l.countP Client.isTick := by
+    intro l
+    induction l with
+    | nil => rfl
+    | cons i r ih =>
+      unfold ticks at ih ⊢
+      cases i <;> simp [Client.isTick, List.countP_cons, ih]
+  have h2 := h2 inps
+  unfold Client.orank at h1
+  omega
+
+/-- a client as `client_init()` + the option setters leave it: query type to be autodetected, lazy mode wanted -/
+def exampleCli : Client.Cli :=
+  { Client.clientInit Client.Cli.boot 4711 815 with topdomain := Client.ascii "t.example.com", lazymode := true, selecttimeout := 4 }
+
+set_option maxRecDepth 100000 in
+/-- non-vacuity: the machine really runs (it is parked in the first query-type probe, type NULL, 1 s), a reply with a wrong id is ignored
+without any effect but on `in[]`, and when nothing ever answers the autodetection gives up after exactly 3 x 7 timeouts -/
+example :
+    (Client.hsStart exampleCli ⟨true, true, 0⟩ [] []).1.pos = some (.qtype 1 0 100) ∧
+    (handshakeRun exampleCli ⟨true, true, 0⟩ [] [] [.rq ⟨5, 1, 10, 0, 121, [1, 2, 3, 4, 5]⟩]).pos = some (.qtype 1 0 100) ∧
+    (handshakeRun exampleCli ⟨true, true, 0⟩ [] [] (List.replicate 20 .tick)).pos = some (.qtype 3 6 100) ∧
+    (handshakeRun exampleCli ⟨true, true, 0⟩ [] [] (List.replicate 21 .tick)).pos = none := by
+  decide +kernel
+
+example : (handshakeRun exampleCli ⟨true, true, 0⟩ [] [] (List.replicate 162 .tick)).pos = none :=
+  handshake_terminates _ _ _ _ _ (by decide +kernel)
+
+/-- **`handshake_commands_validated`** (the C13 link).  Every `system()` call of the handshake machine — in ANY state, on ANY input —
+happens while it waits for the login reply, and the command is one `Shell.loginStep` builds from a login reply that passed the validation
+of C13: exactly `PATH=/sbin:/bin ifconfig <dev> <quad> <quad> netmask <quad>` or `… ifconfig <dev> mtu <201..1500>`.  No other reply of the
+handshake (version, codec switches, probes, …), matched or not, reaches the operating system. -/
+theorem handshake_commands_validated (s : Client.HState) (inp : Client.CInput) (hd : s.dev.length ≤ 430) (cmd : List Nat)
+    (hc : Client.CEvent.sys cmd ∈ (Client.hstep s inp).2.1) :
+    (∃ seed i, s.pos = some (.login seed i)) ∧ (C13.IpCmd s.dev cmd ∨ C13.MtuCmd s.dev cmd) := by
+  obtain ⟨h1, reply, h2⟩ := Client.hstep_sys s inp cmd hc
+  exact ⟨h1, C13.shell_args_are_quads_and_ranged_ints s.dev reply 0 hd cmd h2⟩
+
+/-- … at most two per step: the events of a step are the commands of ONE login reply (the address command, then the MTU command), followed
+by events that are not `system()` calls; and entering `client_handshake` calls `system()` not at all. -/
+theorem handshake_at_most_two_commands (s : Client.HState) (inp : Client.CInput) :
+    ((Client.hstep s inp).2.1.filter Client.isSys).length ≤ 2 := by
+  obtain ⟨cmds, l, h1, h2, h3⟩ := Client.hstep_events s inp
+  have hl : l.filter Client.isSys = [] := by
+    rw [List.filter_eq_nil_iff]
+    intro e he
+    simp [h2 e he]
+  have hm : (cmds.map Client.CEvent.sys).filter Client.isSys = cmds.map Client.CEvent.sys := by
+    rw [List.filter_eq_self]
+    intro e he
+    obtain ⟨c, _, rfl⟩ := List.mem_map.mp he
+    rfl
+  rw [h1, List.filter_append, hl, hm, List.append_nil, List.length_map]
+  rcases h3 with h3 | ⟨_, reply, h3⟩
+  · simp [h3]
+  · rw [h3]; exact C13.at_most_two_commands _ _ _
+
+theorem handshake_start_no_command (c : Client.Cli) (args : Client.HsArgs) (pw dev : List Nat) (cmd : List Nat) :
+    Client.CEvent.sys cmd ∉ (Client.hsStart c args pw dev).2.1 := by
+  intro h
+  have := (Client.evs_hsStart c args pw dev).sys_mem h
+  cases this
+
+/-- the state in which the example client waits for its first login reply (query id 4242) -/
+def exampleLoginWait : Client.HState :=
+  { c := { exampleCli with chunkid := 4242, doQtype := 10 }, pos := some (.login 7 0), inb := [], args := ⟨false, true, 0⟩, pw := [], dev := [] }
+
+/-- non-vacuity: a genuine login reply makes the machine run exactly the two commands and go on to the EDNS0 probe … -/
+example :
+    (Client.hstep exampleLoginWait (.rq ⟨25, 4242, 10, 0, 108, Client.ascii "10.0.0.1-10.0.0.2-1130-27"⟩)).2.1.take 2 =
+      [.sys (Client.ascii "PATH=/sbin:/bin ifconfig  10.0.0.2 10.0.0.2 netmask 255.255.255.224"),
+       .sys (Client.ascii "PATH=/sbin:/bin ifconfig  mtu 1130")] ∧
+    (Client.hstep exampleLoginWait (.rq ⟨25, 4242, 10, 0, 108, Client.ascii "10.0.0.1-10.0.0.2-1130-27"⟩)).1.pos = some (.edns 0) := by
+  decide +kernel
+
+/-- … and a hostile one (`;id` behind the address) none at all: `tun_setip` refuses, the client ends with `errx(4)` -/
+example :
+    (Client.hstep exampleLoginWait (.rq ⟨29, 4242, 10, 0, 108, Client.ascii "10.0.0.1-10.0.0.2 ;id-1130-27"⟩)).2 = ([], .errx 4) := by
+  decide +kernel
 
 end Iodine.C06
